@@ -365,7 +365,7 @@ pub fn gen(prop: &str, seed: u64, thorough: bool, out: &mut impl Write) {
                 let nest = rng.below(2);
                 let nas = rng.pick(&[0u64, 1, 16, 65536, 1 << 20]);
                 let opts = rng.below(32);
-                let hasr = if rng.chance(1, 10) { 0 } else { 1 };
+                let hasr = if rng.chance(1, 10) { 0 } else if rng.chance(1, 3) { 2 } else { 1 }; // 2: options set before pages()
                 emit(out, &Case::new(333).args(&[cmax, nest, nas, hasr, s, e, szk, opts & 1, rng.below(4096), (opts >> 1) & 1, rng.below(65536), (opts >> 2) & 1, (opts >> 3) & 1, if nest == 1 || rng.chance(1, 10) { (opts >> 4) & 1 } else { 0 }]));
             }
         }
